@@ -125,14 +125,14 @@ def check_debversion(fields, impl):
         return [("dv-stable", "a parsed debversion::Version is not read back from its own to_string()")]
     return []
 
-CHECKS = {"rel-lossy": check_value, "rel-lossy-old": check_value,
-          "rel-lossy-text": check_text, "rel-lossy-text-old": check_text,
+CHECKS = {"rel-lossy": check_value, "rel-lossy-old": check_value, "rel-lossy-oldnl": check_value,
+          "rel-lossy-text": check_text, "rel-lossy-text-old": check_text, "rel-lossy-text-oldnl": check_text,
           "rel-lossy-conv": check_conv, "debversion": check_debversion}
 
 # ---------------------------------------------------------------- known-finding classes
 def explain(stream, fields, check):
     """the known-finding class that explains one failed check of a case, or None"""
-    if stream in ("rel-lossy", "rel-lossy-old"):
+    if stream in ("rel-lossy", "rel-lossy-old", "rel-lossy-oldnl"):
         rs = G.rels_of(fields[0])
         if check == "eq-panic" and G.has_big_digit_run(rs):
             return "debversion-eq-digit-run-overflow"
@@ -147,8 +147,8 @@ class C14(Prop):
     coq_targets = ["props/C14.vo"]
     props_file = "props/C14.v"
     design_ref = "DESIGN.md §4 C14"
-    level_text = ('Coq theorems about the lossy relations reader and printers (debian-control/src/lossy/relations.rs with '
-                  'proposed_fixes/C14-lossy-relations.patch applied): both FromStr entry points return a value or an error on every '
+    level_text = ('Coq theorems about the lossy relations reader and printers (debian-control/src/lossy/relations.rs of /repo 5517d72 with '
+                  'proposed_fixes/C14-lossy-newlines.patch applied: line breaks are white space inside a relation): both FromStr entry points return a value or an error on every '
                   'string (no panic; the fuel of the profile loop suffices) — C14_relation_total, C14_relations_total; for every '
                   'lossy Relation and every Relations value built from valid components (non-empty identifier-character names, '
                   'qualifiers, architecture names possibly negated, profile names possibly negated; any of the optional parts present or '
@@ -191,10 +191,10 @@ class C14(Prop):
                    "equality of values is structural (name, qualifier, operator, epoch/upstream/revision, architecture list, profile groups) — stronger than the crate's ==, which compares versions semantically"]
 
     def _old(self):
-        return os.environ.get("C14_MODEL") == "old"
+        return os.environ.get("C14_MODEL") in ("old", "oldnl")
 
     def streams(self, tier, rng):
-        sfx = "-old" if self._old() else ""
+        sfx = "-" + os.environ.get("C14_MODEL") if self._old() else ""
         yield "rel-lossy" + sfx, G.value_cases(tier, rng, "v")
         yield "rel-lossy-text" + sfx, G.text_cases(tier, rng, "t")
         if not self._old():
